@@ -485,8 +485,10 @@ func verifAssume(cond bool) {}
 //@   modifies nothing
 
 //@ callback role documentFactory() (d) : result 0 of GetDocumentFactory, param f of RegisterDocumentFactory
+//@   props C01 C02
 //@   modifies nothing
-//@   ensures d != nil && fresh(d) && tagof(d) == factoryTag(self_)
+//@   ensures d != nil && fresh(d)  ## checked for every factory the package itself registers (roleimpl)
+//@   ensures tagof(d) == factoryTag(self_)
 //@   note registered document factories return a new non-nil document of a fixed dynamic type
 
 //@ func UnmarshalDocument :: (d, t) (result0, result1)
@@ -669,8 +671,10 @@ func verifAssume(cond bool) {}
 
 //@ mapinv authFactories : v != nil && k != ""  ## the registry is initialised with five non-nil factories and never written afterwards
 //@ callback role authFactory() (a) : element of authFactories
+//@   props C01 C02 C03
 //@   modifies nothing
-//@   ensures a != nil && fresh(a) && tagof(a) == authFactoryTag(self_)
+//@   ensures a != nil && fresh(a)  ## checked for every function the package stores in the table: a decoded credential object is never shared between envelopes
+//@   ensures tagof(a) == authFactoryTag(self_)
 //@   note authFactories holds only the package's own factories, which return a new non-nil value
 
 //@ func (*Session).toRawEnvelope :: (s) (result0, result1)
